@@ -67,7 +67,7 @@ def main():
         return
     if confirmed:
         vdir = "/verif"
-        env = ""
+        env = "VERIF_NO_EVIDENCE=1 "
         if isolated:
             # a private copy of the framework whose harness is built against the worktree itself:
             # /repo stays untouched, so other work can go on meanwhile
@@ -78,7 +78,7 @@ def main():
             os.makedirs(vdir + "/work", exist_ok=True)
             sh("cp -r /verif/work/mc %s/work/mc" % vdir)
             sh("sed -i 's#path = \"/repo\"#path = \"%s\"#' %s/harness/Cargo.toml" % (wt, vdir))
-            env = "VERIF_REPO=%s " % wt
+            env = "VERIF_NO_EVIDENCE=1 VERIF_REPO=%s " % wt
             os.rename(demo, demo + ".aside")   # the demo must not be part of what is built/tested
         else:
             rc, out = sh("git -C /repo status --porcelain")
